@@ -74,6 +74,7 @@ Inductive op :=
 | OWithSuffixCh (ch : N) | OWithPrefixCh (ch : N)
 | OWithoutSuffixSI (a : sarg) (max : N) | OWithoutPrefixSI (a : sarg) (max : N)
 | OWithoutSuffixChI (ch max : N) | OWithoutPrefixChI (ch max : N)
+| OWithWord (idx : N) (a : sarg) (sep : list N)
 (* s = <producer>(...) : the result is move-assigned to the subject *)
 | OAssign (o : op).
 
@@ -422,6 +423,30 @@ Definition plus_s (s : str1) (o : src) : str1 :=
   let r0 := snd (prealloc empty1 (u32 (slen s + snd o))) in
   append_s (snd (set_from r0 (Some (src_of s)) 0 NOLIMIT)) (Some o).
 
+(* String::WithInsertedWordAux; [w] is the word (a separate or the subject's own String), [sep] the separator literal *)
+Definition with_word (s : str1) (idx : N) (w : src) (sep : list N) : str1 :=
+  let me := src_of s in
+  let l := abs s in
+  let wb := src_bytes w in
+  let n := snd w in
+  let ins (r : str1) (i : N) := snd (insert_aux r i (Some (fst w)) false n 1) in
+  if n =? 0 then ctor_copy me
+  else if lenN sep =? 0 then ins (ctor_copy_pre me n) idx
+  else if slen s <=? idx then
+    ins (ctor_copy_pre (if (slen s =? 0) || ends_with l sep || starts_with wb sep then me
+                        else src_of (with_insert s NOLIMIT (src_lit sep) NOLIMIT)) n) NOLIMIT
+  else if idx =? 0 then
+    ins (ctor_copy_pre (if (slen s =? 0) || starts_with l sep || ends_with wb sep then me
+                        else src_of (with_insert s 0 (src_lit sep) NOLIMIT)) n) 0
+  else
+    let after := ctor_sub me idx NOLIMIT in
+    let r0 := ctor_copy_pre (src_of (ctor_sub me 0 idx)) (u32 (u32 (n + slen after) + u32 (lenN sep * 2))) in
+    let r1 := if (0 <? slen r0) && negb (ends_with (abs r0) sep) && negb (starts_with wb sep) then append_c r0 (CLit sep) else r0 in
+    let r2 := ins r1 NOLIMIT in
+    let r3 := if (0 <? slen after) && negb (ends_with (abs r2) sep) && negb (starts_with (abs after) sep)
+              then append_c r2 (CLit sep) else r2 in
+    plus_s r3 (src_of after).
+
 Definition produce (s : str1) (o : op) : option out1 :=
   let me := src_of s in
   let sa (a : sarg) := osrc s (arg_src a) in
@@ -482,6 +507,7 @@ Definition produce (s : str1) (o : op) : option out1 :=
                    else without_suffix_nc_loop (S (length (abs s))) (ctor_copy me) [ch] max))
   | OWithoutPrefixChI ch max =>
       Some (R1Str (ctor_sub me (lenN (abs s) - lenN (strip_ch_prefix_nc (abs s) ch max)) NOLIMIT))
+  | OWithWord idx a sep => Some (R1Str (with_word s idx (sa a) sep))
   | _ => None
   end.
 
@@ -625,6 +651,7 @@ Definition produce0 (l : list N) (o : op) : option out0 :=
   | OWithoutPrefixSI a max => Some (R0Str (l0_without_prefix_nc l (sb a) max))
   | OWithoutSuffixChI ch max => Some (R0Str (strip_suffix_nc_fuel (S (length l)) l [ch] max))
   | OWithoutPrefixChI ch max => Some (R0Str (strip_ch_prefix_nc l ch max))
+  | OWithWord idx a sep => Some (R0Str (l0_with_word l idx (sb a) sep))
   | _ => None
   end.
 
@@ -728,6 +755,7 @@ Fixpoint dealias (l : list N) (o : op) : op :=
   | OWithoutSuffixS a m => OWithoutSuffixS (S a) m | OWithoutPrefixS a m => OWithoutPrefixS (S a) m
   | OPlusS a => OPlusS (S a)
   | OWithoutSuffixSI a m => OWithoutSuffixSI (S a) m | OWithoutPrefixSI a m => OWithoutPrefixSI (S a) m
+  | OWithWord i a sep => OWithWord i (S a) sep
   | OAssign o' => OAssign (dealias l o')
   | _ => o
   end.
